@@ -837,3 +837,32 @@ def referent_roots(body, local, depth=0, seen=None):
             if l is not None:
                 out |= referent_roots(body, l, depth + 1, seen)
     return out
+
+
+# ---------------------------------------------------------------------------
+# channel reliability
+# ---------------------------------------------------------------------------
+
+def lossy_sends(body):
+    """channel sends in `body` that can drop the value when the queue is full / closed without the caller waiting:
+    [(line, callee)] — try_send*, send_timeout, and sends on a watch channel are not considered here"""
+    out = []
+    for _b, t in body.calls():
+        n = cname(t)
+        if not n:
+            continue
+        seg = last_seg(n)
+        if re.match(r'^(flume|crossbeam_channel|tokio::sync::mpsc|std::sync::mpsc|async_channel)', n) and \
+                (seg.startswith('try_send') or seg in ('send_timeout', 'send_deadline', 'try_reserve')):
+            out.append((t['cs'], n))
+    return out
+
+
+def channel_ctor_bounded(facts, body):
+    """constructors of bounded channels called in body: [(line, callee, capacity)]"""
+    out = []
+    for _b, t in body.calls():
+        n = cname(t)
+        if n and re.match(r'^(flume|crossbeam_channel|tokio::sync::mpsc|async_channel)', n) and last_seg(n) in ('bounded', 'channel', 'sync_channel'):
+            out.append((t['cs'], n, const_int(t['args'][0]) if t['args'] else None))
+    return out
